@@ -61,7 +61,11 @@ Proof.
   - (* has *) intros s k _. unfold sc_has. destruct (p_lookup s k); congruence.
   - (* put *) intros s k v k' w _. apply sc_put_may.
   - (* remove *) intros s k k' w _. apply p_lookup_del_some.
+  - (* clear *) discriminate.
 Defined.
+
+Lemma small_cache_clear_forgets cap : clear_forgets (small_cache cap) (small_cache_laws cap).
+Proof. intros s k _. reflexivity. Qed.
 
 (** * Oracles *)
 Fixpoint count_true (o : oracle) : nat :=
@@ -255,7 +259,7 @@ Qed.
 Lemma clear_spec s : coherent s -> coherent (unit_clear_cache C s) /\ u_pers (unit_clear_cache C s) = u_pers s.
 Proof.
   intros [Hinv Hco]. split; [|reflexivity]. split; simpl; [apply cl_inv_clear; exact Hinv|].
-  intros k v Hm. rewrite cl_clear in Hm by exact Hinv. discriminate.
+  intros k v Hm. apply cl_clear in Hm; [|exact Hinv]. auto.
 Qed.
 
 (** ** GetBulkFromEpoch *)
@@ -390,6 +394,24 @@ Proof.
   - destruct (snd (c_get C c k)) as [v|] eqn:E; [|reflexivity].
     apply (cl_get C L) in E; [congruence|exact Hinv].
   - destruct (c_has C c k) eqn:E; [|reflexivity]. apply (cl_has C L) in E; [contradiction|exact Hinv].
+Qed.
+
+(** a read of a key the cache's ghost map does not hold goes to the persister *)
+Lemma get_miss s k o : coherent s -> may (u_cache s) k = None ->
+  snd (unit_get C s k o) = if hd false o then GErr EInjected else spec_get (u_pers s) k.
+Proof.
+  intros [Hinv Hco] Hm. destruct (may_none_get _ _ Hinv Hm) as [G _].
+  unfold unit_get. destruct (c_get C (u_cache s) k) as [c1 r]. simpl in G. subst r.
+  unfold per_get, spec_get. rewrite take_bit_eq.
+  destruct (hd false o); [reflexivity|]. destruct (p_lookup (u_pers s) k); reflexivity.
+Qed.
+
+Lemma has_miss s k o : coherent s -> may (u_cache s) k = None ->
+  snd (unit_has C s k o) = if hd false o then EInjected else spec_has (u_pers s) k.
+Proof.
+  intros [Hinv Hco] Hm. destruct (may_none_get _ _ Hinv Hm) as [_ G].
+  unfold unit_has. rewrite G. unfold per_has, spec_has. rewrite take_bit_eq.
+  destruct (hd false o); [reflexivity|]. destruct (p_lookup (u_pers s) k); reflexivity.
 Qed.
 
 (** operations that do not write [k] leave the persister's binding of [k] alone *)
@@ -537,6 +559,21 @@ Proof.
   rewrite <- pers_is_ack.
   destruct (unit_step C (unit_final C (unit_new C) pre) (OBulk ks ep o)) as [s1 out] eqn:E.
   destruct (step_spec _ _ _ _ (final_coherent pre _ coherent_new) E) as (_ & _ & H). exact H.
+Qed.
+
+(** cold reads: when Clear forgets everything, a read right after ClearCache is decided by the
+    oracle and the map alone *)
+Lemma cold_read ops k o : clear_forgets C L ->
+  let s := unit_clear_cache C (unit_final C (unit_new C) ops) in
+  let m := ack_map (unit_run C (unit_new C) ops) in
+  snd (unit_get C s k o) = (if hd false o then GErr EInjected else spec_get m k) /\
+  snd (unit_has C s k o) = (if hd false o then EInjected else spec_has m k).
+Proof.
+  intros Hcf s m. subst m. rewrite <- pers_is_ack.
+  pose proof (final_coherent ops _ coherent_new) as Hco0.
+  destruct (clear_spec _ Hco0) as [Hco Hp]. fold s in Hco, Hp. rewrite <- Hp.
+  assert (Hm : may (u_cache s) k = None) by (apply Hcf, Hco0).
+  split; [apply get_miss|apply has_miss]; assumption.
 Qed.
 
 End Proofs.
